@@ -105,6 +105,11 @@ func aimProbes(r *rng.R, st snapStream, stream int) []areq {
 	ps = append(ps, areq{Kind: "media", Stream: stream, Query: append(q("_HLS_msn", u(next-1)), qitem{Bad: true})})
 	add("_HLS_msn", u(next-1), "_HLS_part", "0", "my key", "a b", "token", "x/y z")
 	add("_HLS_skip", "YES", "_HLS_msn", u(next), "_HLS_part", "0", "t", "a+b c")
+	// directives the server does not act on are delivery directives all the same: no _HLS_ key may reach a URI
+	// (round 10: C06-m14, only _HLS_msn / _HLS_part / _HLS_skip filtered out)
+	add("_HLS_push", "1", "token", "abc")
+	add("_HLS_report", "x", "_HLS_skip", "YES")
+	add("_HLS_msn", u(next-1), "_HLS_", "e", "_HLS_msnx", "5", "k", "v")
 	add("q r", "1 2")
 	ps = append(ps, areq{Kind: "media", Stream: stream})
 	// the same decoded query arrives in one of its equivalent raw spellings (percent-encoded
